@@ -6,7 +6,7 @@ import writer_tab as wt
 
 CONFIGS_QUICK = ["F_all"]
 CONFIGS_THOROUGH = ["F_all", "F_def"]
-TECHNIQUE = 'static analysis: writer flag/indent table extraction (sync+async), output sequences of write_wrapped*, who-writes-newline, depth bookkeeping must-call rules, value sets of WriteResult predicates'
+TECHNIQUE = 'static analysis: writer flag/indent table extraction (sync+async), output sequences of write_wrapped*, who-writes-newline, depth bookkeeping must-call rules, value sets of WriteResult predicates, effect-vs-classification rule for WriteResult on text-writing paths'
 EXPLANATION = (
     "Writer flag table (sync and async): should_line_break is set false exactly after Text and CData and true after every "
     "other event; the only code writing `\\n` + current indent is write_wrapped*/write_indent*, in the former only under "
